@@ -53,17 +53,17 @@ PROPS = {
         explanation='Verbatim bodies: FileIterator::next pairs the content with the header file entry the archive entry NAMES (index returned by Reader::file_entry_index), never by position; Reader::new bounds the name buffer, bounds-checks the stripped file index and sizes the entry from the cpio header resp. the header file entry; pad(len) is (4 - len mod 4) mod 4 NUL bytes; Reader::read never hands out more than file_size - bytes_read, accounts exactly what it handed out and cannot overflow; Reader::finish consumes the rest of the entry plus its padding; Writer::write accepts data only while it fits the announced size and emits the header first; header + full body + finish yields hdr ++ body ++ NUL padding with 4-byte alignment.',
     ),
     'C08': dict(
-        level='proof', verus=['c10_sign', 'c14_writers'],
+        level='proof', verus=['c10_sign', 'c08_sigbuild', 'c14_writers'],
         trusted_base=[A_TOOLS, A_EXTRACT, 'A-HASH: sha2 / hex compute SHA-256 / lower-case hex (uninterpreted)',
                       'A-LEAF-LINK: Header::write contract proved in unit c14_writers',
-                      'axiom_built_sig_digest: SignatureHeaderBuilder::build stores the digest under RPMSIGTAG_SHA256 as a string (build itself uses from_entries and the pgp packet parser and is not under a Verus contract; checked bounded by K:k_sighdr_digest where it finishes)'],
+                      'SignatureHeaderBuilder::build is proved on its verbatim body (unit c08_sigbuild) against the from_entries contract of unit c09_from_entries; A-SIZE: the size precondition of from_entries (< 2 GiB of data) is assumed for signature headers; A-PGP: packet parser / base64 stand-ins'],
         assumptions=['NOT covered: payload digest, alternate (uncompressed) payload digest and per-file digests are computed inside prepare_data / add_data (not under contract); what is proved is the hashing writer they are computed through and the header digest on build / sign / clear'],
         explanation='Sha256Writer::write (verbatim, any inner sink): the hasher absorbs exactly the bytes the inner writer accepted (Ok(n): buf[..n]; Err: nothing) and into_digest is sha256 of them; PackageBuilder::build, Package::sign_with_timestamp, Package::clear_signatures: the SHA-256 stored in the signature header is hex(sha256(ser(header))) of the header that ends up in the package.',
     ),
     'C10': dict(
-        level='proof', verus=['c10_sign', 'c02_verify_sig', 'c14_writers'],
+        level='proof', verus=['c10_sign', 'c08_sigbuild', 'c02_verify_sig', 'c14_writers'],
         trusted_base=[A_TOOLS, A_EXTRACT, 'A-PGP: Signing::sign returns the signer output over exactly the bytes it is shown; Verifying is a function of bytes and signature; real-key semantics (verifies iff same key) and key-id reporting are functional correctness of the pgp crate: assumed / not covered',
-                      'built_sig: the signature header is an (uninterpreted) function of the builder state'],
+                      'built_sig names the header produced by SignatureHeaderBuilder::build; its content (digest under SHA256, all signatures base64 under OPENPGP, the LAST signature under the legacy tag chosen by its key algorithm, no signature tag when none given) is proved in unit c08_sigbuild'],
         assumptions=['R21: the TryInto<Timestamp> conversion at the sign API boundary is dropped (C20 subject)',
                      'NOT covered: signature_key_ids (base64 reader, pgp Signature::issuer, iterator adapters)'],
         explanation='sign_with_timestamp / clear_signatures (verbatim): lead, main header and payload are unchanged (frame, also on Err); the signature header becomes build(digest = hex(sha256(ser(header))), signatures = [signer output over exactly ser(header)]) resp. no signatures; lemma_history: by induction over ALL histories of {sign, clear, write+parse} header and payload stay byte-identical and the signature segment is the one of the last sign/clear; with C02 the package verifies iff the verifier accepts that signature over ser(header).',
@@ -140,7 +140,7 @@ PROPS['C13'] = dict(
     technique='contract-based deductive verification (Verus) of the EVR/NEVRA comparison structure over an uninterpreted string comparison',
 )
 PROPS['C09'] = dict(
-    level='proof', verus=['c09_from_entries', 'c14_writers', 'c07_payload', 'c16_offsets'],
+    level='proof', verus=['c09_from_entries', 'c14_writers', 'c07_payload', 'c16_offsets', 'c17_compressor'],
     trusted_base=[A_TOOLS, A_EXTRACT, 'A-LEAF-LINK: IndexData::append contract = K:k_append_* (bounded) on the real function; write_index contract proved in unit c14_writers',
                   'assumed std specification of slice::sort_by (permutation, no earlier element compares Greater than a later one)', 'A-UTF8: String::as_bytes is uninterpreted'],
     assumptions=['PARTIAL: decided are the header layout produced by Header::from_entries / create_region_tag (region tag + trailer, ascending tags, aligned in-range non-overlapping offsets, store = aligned concatenation), the 8-byte signature padding, the cpio 4-byte alignment arithmetic and the lead defaults. NOT covered (inside PackageBuilder::prepare_data): distinctness of emitted tags, non-zero counts, rpmlib() features per feature used, payload order = header order, compressor named = compressor used',
